@@ -6,7 +6,11 @@ pub(crate) fn leap_years(mut year: i32) -> u32 {
     if year.is_negative() {
         year += 1;
     }
-    let year_abs = year.abs();
+    let mut year_abs = year.abs();
+    if year.is_negative() {
+        // The year itself is not counted, the year before year 1 (astronomical year 0) is
+        year_abs -= 1;
+    }
     let mut leaps = year_abs / 4 - year_abs / 100 + year_abs / 400;
     if year.is_negative() {
         leaps += 1;
